@@ -244,7 +244,7 @@ func NewWorld(cfg Config, clients, peers []string) (*World, error) {
 		AuthHandler: func(ra *turn.RequestAttributes) (string, []byte, bool) {
 			w.AuthCalls++
 			p, ok := Users[ra.Username]
-			if !ok {
+			if !ok || ra.Realm != Realm {
 				return "", nil, false
 			}
 
